@@ -23,8 +23,7 @@ RULE = ("replay: one generated all-module history (5 pools, 14 providers incl. a
         "separate OS processes, in three modes that must agree: plain, twin (serves Simulate of admin edits of shared objects, gRPC "
         "queries and CheckTx of the next block between blocks), restarted (new app object on the same DB twice on the way); the history "
         "also has rejected two-message transactions whose FIRST message edits a shared decoded object (existing registry entry replaced, "
-        "deregister, set registry, admin removal, whitelist removal, policy update) followed by a failing send; transactions failing the "
-        "stateless ValidateBasic are left out (see note); one `chk allEqual` line per block (N app hashes), per block (N EndBlock validator/"
+        "deregister, set registry, admin removal, whitelist removal, policy update) followed by a failing send; stateless-invalid transactions are included; one `chk allEqual` line per block (N app hashes), per block (N EndBlock validator/"
         "param updates) and per transaction (N tuples Code:Codespace:Data:GasWanted:GasUsed), judged by "
         "Sif.Spec.C09.allEqualN.  non-trivial = distinct transaction line or block line")
 TRUSTED_BASE = [
@@ -45,6 +44,8 @@ TRUSTED_BASE = [
     "Go harness harness/replay (pilot + re-execution, worker processes), line protocol, drv_replay parser",
 ]
 ASSUMPTIONS = [
+    "the F25 tag is attached by position only (transaction whose messages fail ValidateBasic, decided by the pilot from the messages alone; block index equal "
+    "to a restart point of the restarted mode), never by looking at the outcome",
     "transfer_perm: sum of payouts <= module balance (consequence of C01 solvency and rate <= 1) and every recipient already has an auth account",
     "pool-update loops: the map's pool pointers denote pairwise distinct pool symbols (GetPools yields one object per store key)",
     "tally_perm_invariant: claim contents distinct (map keys), counted powers sum <= total whitelisted bonded power (holds with repair F2), "
@@ -52,6 +53,8 @@ ASSUMPTIONS = [
     "events, logs and query answers are not consensus state (Tendermint 0.34 hashes Code, Data, GasWanted, GasUsed of DeliverTx only)",
 ]
 UNPROVED = [
+    "F25 (known finding, cosmos-sdk): GasUsed of a stateless-invalid transaction in the first block after a node restart is NOT run-independent; "
+    "everything else about that block (app hash, other results) is, as far as the re-executions show",
     "bit-identical app hash across runs/processes on the REAL code: only tested by N-fold re-execution (Go map order, IAVL, encoders are outside the model)",
     "float determinism of PolicyStart (math.Pow), GetSQFromBlocks (math.Pow, math.E), CalcMTPInterestLiabilities/CheckMinLiabilities (Dec->float64), "
     "processCompletion (float64 division): argued in DESIGN 4/C09, not proved; exercised by re-execution on one platform only",
@@ -68,9 +71,12 @@ MANIFEST = {
              "goroutine use; `decide` obligations require each to be a reviewed, covered site.  Tie 2 (a TEST, not a proof): the real application is "
              "driven through InitChain/BeginBlock/DeliverTx/EndBlock/Commit with signed transactions on generated all-module histories, N = 8/64 times "
              "in fresh instances and separate processes; app hashes and DeliverTx {Code,Data,GasWanted,GasUsed} are judged equal by a Lean predicate."),
-    "note": ("Observation (cosmos-sdk v0.45 baseapp, not Sifchain code; excluded from the histories): a transaction that fails the stateless "
-             "ValidateBasic gets GasWanted 0 and GasUsed = the gas BeginBlock consumed on the block's shared infinite meter, which is 15127 higher "
-             "in the first block after a node restart (x/upgrade's in-memory downgradeVerified) — honest proposers never include such transactions.  "
+    "note": ("KNOWN FINDING F25 (tag txresult.restarted.validatebasic.gasused, directed history restart-validatebasic, hit on every run): a node restarted just "
+             "before a block reports another GasUsed (GasWanted 0) for the transactions of that block that fail the stateless ValidateBasic — baseapp.runTx reads the "
+             "block's shared infinite gas meter before the ante handler installs the tx meter, and x/capability's InitMemStore charges 15127 more gas on that meter in "
+             "the first BeginBlock after a start; code, data, GasWanted and the app hash agree; cause in cosmos-sdk v0.45.16, not repairable in sifnode.  For such a "
+             "transaction in the first block after a restart the harness judges code/data/GasWanted across all executions and GasUsed within the not-restarted and "
+             "within the restarted executions under the ordinary tags; only the comparison of GasUsed across the two groups carries the F25 tag.  "
              "Proof covers the LOGIC of order-independence on hand-written models and the completeness of the site list; it cannot cover the Go runtime's "
              "map order, float code generation, IAVL or encoders — those are only exercised by re-execution on this machine.  Found and repaired: F20 "
              "(LPPD / epoch payouts in Go-map order create accounts in nondeterministic order when providers from a hand-made genesis have no account: "
